@@ -66,7 +66,7 @@ def main():
     seeds = args or sorted(os.listdir(SEEDROOT))
     seeds = [s for s in seeds if os.path.isdir(os.path.join(SEEDROOT, s))]
     results = {}
-    with ThreadPoolExecutor(max_workers=4 if external else 3) as ex:
+    with ThreadPoolExecutor(max_workers=8 if external else 3) as ex:
         for r in ex.map(run_seed, seeds):
             results[r["seed"]] = r
             own = r["seed"][:3]
